@@ -27,7 +27,7 @@ def known_findings(prop):
         doc = json.load(open(FINDINGS_FILE))
     except FileNotFoundError:
         return []
-    return [f for f in doc.get('findings', []) if f['property'] == prop and f['status'] == 'known']
+    return [f for f in doc.get('findings', []) if prop in f['properties'] and f['status'] == 'known']
 
 
 class Outcome:
@@ -120,9 +120,13 @@ def pmap(fn, arglist, procs=12):
     return res
 
 
+TRACE_FIELDS = ('id', 'nc', 'init', 'ev')
+
+
 def _validate_batch(args):
     module, cfg, traces, timeout = args
-    res, got = tlcmod.validate_traces(module, cfg, {'traces': traces}, timeout=timeout)
+    slim = [{k: t[k] for k in TRACE_FIELDS if k in t} for t in traces]
+    res, got = tlcmod.validate_traces(module, cfg, {'traces': slim}, timeout=timeout)
     return res.distinct, res.generated, res.wall, got
 
 
